@@ -46,11 +46,13 @@ func (p Proto) Curve() elliptic.Curve {
 
 // Config describes one protocol instance. Only the fields of the chosen protocol are used.
 type Config struct {
-	Proto     Proto
-	Label     string // goes into the DRBG labels
-	Seed      int64
-	RealRand  bool // use crypto/rand (production entropy) instead of per-party DRBGs
-	Threshold int
+	PartialKeyLabel string // with RealRand: install a deterministic partial-key reader derived from this label
+	Concurrency     int    // tss.Parameters concurrency (0: 2)
+	Proto           Proto
+	Label           string // goes into the DRBG labels
+	Seed            int64
+	RealRand        bool // use crypto/rand (production entropy) instead of per-party DRBGs
+	Threshold       int
 
 	// keygen
 	Keys      []*big.Int            // party keys (ids), any order
@@ -58,7 +60,7 @@ type Config struct {
 
 	// signing
 	Msg          *big.Int
-	FullBytesLen int // 0 = absent
+	FullBytesLen int                       // 0 = absent
 	EcKeys       []eckg.LocalPartySaveData // one per signer (signing) or per old member (resharing)
 	EdKeys       []edkg.LocalPartySaveData
 	KDD          *big.Int // ecdsa signing key derivation delta
@@ -80,18 +82,18 @@ type Config struct {
 }
 
 type Msg struct {
-	Sender    int    // node index
-	Seq       int    // emission index at the sender
-	Type      string // short proto name
-	Bytes     []byte
-	Broadcast bool
-	ToNil     bool  // the message's To list was nil (broadcast to all)
-	To        []int // recipient node indices (self excluded)
-	ToOld     bool
-	ToBoth    bool
+	Sender     int    // node index
+	Seq        int    // emission index at the sender
+	Type       string // short proto name
+	Bytes      []byte
+	Broadcast  bool
+	ToNil      bool  // the message's To list was nil (broadcast to all)
+	To         []int // recipient node indices (self excluded)
+	ToOld      bool
+	ToBoth     bool
 	Unresolved int // entries of the To list that match no party of the addressed committee
-	RawToLen  int
-	Raw       tss.Message `json:"-"`
+	RawToLen   int
+	Raw        tss.Message `json:"-"`
 }
 
 func (m *Msg) Ref() string { return fmt.Sprintf("%d.%d", m.Sender, m.Seq) }
@@ -108,15 +110,15 @@ type Node struct {
 	endEdKG chan *edkg.LocalPartySaveData
 	endSig  chan *common.SignatureData
 
-	Started  bool
-	Emitted  []*Msg
-	Ends     []interface{} // values received on the end channel
-	Errs     []*tss.Error  // errors returned by calls on this node
-	Panics   []string
-	Calls    int
-	EcKey    *eckg.LocalPartySaveData // the caller-held key data handed to the constructor (signing / resharing)
-	EdKey    *edkg.LocalPartySaveData
-	Delivered []string // refs delivered (in order), with flag marks
+	Started    bool
+	Emitted    []*Msg
+	Ends       []interface{} // values received on the end channel
+	Errs       []*tss.Error  // errors returned by calls on this node
+	Panics     []string
+	Calls      int
+	EcKey      *eckg.LocalPartySaveData // the caller-held key data handed to the constructor (signing / resharing)
+	EdKey      *edkg.LocalPartySaveData
+	Delivered  []string // refs delivered (in order), with flag marks
 	KeyHash0   string   // value hash of the caller-held key data before the party was constructed from it
 	Poisoned   bool     // a call panicked: the party is not called any more
 	PanicSites []string // first tss-lib frame below each recovered panic
@@ -150,10 +152,10 @@ func panicSite(stack string) string {
 
 type Network struct {
 	KeyHash0 []string // per entry of cfg.EcKeys / cfg.EdKeys (in that order)
-	Cfg   Config
-	Nodes []*Node
-	OldN  int // number of old-committee nodes (resharing), they come first
-	Log   []string
+	Cfg      Config
+	Nodes    []*Node
+	OldN     int // number of old-committee nodes (resharing), they come first
+	Log      []string
 }
 
 func shortType(t string) string {
@@ -240,7 +242,16 @@ func newNetwork(cfg Config) (*Network, error) {
 			p.SetRand(rd)
 			p.SetPartialKeyRand(rd)
 		}
-		p.SetConcurrency(2)
+		if cfg.RealRand && cfg.PartialKeyLabel != "" {
+			// a seed-derived reader for the partial key (the hook meant to make keygen reproducible) next to
+			// the default entropy source: the same stream in every session that uses the same label
+			p.SetPartialKeyRand(core.NewDRBG(fmt.Sprintf("%s/%d/%s", cfg.PartialKeyLabel, n.Idx, n.Role)))
+		}
+		if cfg.Concurrency > 0 {
+			p.SetConcurrency(cfg.Concurrency)
+		} else {
+			p.SetConcurrency(2)
+		}
 		n.Params = p
 	}
 	switch cfg.Proto {
